@@ -166,7 +166,91 @@ pub fn child_one(spec: &str, with_greeting: bool) -> i32 {
 }
 
 /// Exhaustive sweep of SIGMA^<=len strings starting with `first` symbols, in this process.
+/// The frame alphabet of the frame-level sweep: individually well-formed (and two ill-formed) frames whose
+/// SEQUENCES a well-behaved peer would never send - a command in the middle of a multipart message, a final frame
+/// without a beginning, READY twice, ...
+fn frame_alphabet() -> Vec<Vec<u8>> {
+    let mut ready_full = vec![5u8];
+    ready_full.extend_from_slice(b"READY");
+    ready_full.push(11);
+    ready_full.extend_from_slice(b"Socket-Type");
+    ready_full.extend_from_slice(&4u32.to_be_bytes());
+    ready_full.extend_from_slice(b"PUSH");
+    vec![
+        vec![0x01, 0x01, b'a'],
+        vec![0x00, 0x01, b'b'],
+        vec![0x01, 0x00],
+        vec![0x00, 0x00],
+        vec![0x04, 0x06, 0x05, b'R', b'E', b'A', b'D', b'Y'],
+        vec![0x04, 0x06, 0x05, b'E', b'R', b'R', b'O', b'R'],
+        vec![0x03, 0, 0, 0, 0, 0, 0, 0, 1, b'c'],
+        command_frame(&ready_full),
+        vec![0x05, 0x06, 0x05, b'R', b'E', b'A', b'D', b'Y'],
+    ]
+}
+
+/// Frame-level sweep (`first` = "F<i>"): every sequence of up to `len` frames of the frame alphabet that starts with frame i.
+fn child_frame_sweep(first: &str, len: usize, progress_path: &str) -> i32 {
+    world::install_panic_hook();
+    let fa = frame_alphabet();
+    let i0: usize = first[1..].parse().unwrap_or(0);
+    let progress = std::fs::OpenOptions::new().create(true).write(true).truncate(true).open(progress_path).ok();
+    let h = std::thread::Builder::new()
+        .stack_size(2 << 20)
+        .spawn(move || {
+            use std::os::unix::fs::FileExt;
+            let mut count = 0u64;
+            let mut viols: Vec<Value> = Vec::new();
+            let mut outcomes: std::collections::HashSet<u64> = Default::default();
+            let mut idx: Vec<usize> = vec![i0];
+            loop {
+                let mut buf = Vec::new();
+                for k in &idx {
+                    buf.extend_from_slice(&fa[*k]);
+                }
+                if let Some(f) = &progress {
+                    let mut line = rc::hex(&buf).into_bytes();
+                    line.resize(140, b' ');
+                    let _ = f.write_all_at(&line, 0);
+                }
+                let r = feed_one(&buf, true, true);
+                count += 1;
+                outcomes.insert(rc::fnv(r.outcome.as_bytes()));
+                if let Some(p) = &r.panic {
+                    if viols.len() < 200 {
+                        viols.push(json!({"input": rc::hex(&buf), "panic": p}));
+                    }
+                } else if r.peak > alloc_bound(r.fed) && viols.len() < 200 {
+                    viols.push(json!({"input": rc::hex(&buf), "peak": r.peak, "fed": r.fed}));
+                }
+                // next sequence (depth-first, first element fixed)
+                if idx.len() < len {
+                    idx.push(0);
+                    continue;
+                }
+                loop {
+                    if idx.len() == 1 {
+                        return (count, viols, outcomes.len());
+                    }
+                    let last = idx.len() - 1;
+                    if idx[last] + 1 < fa.len() {
+                        idx[last] += 1;
+                        break;
+                    }
+                    idx.pop();
+                }
+            }
+        })
+        .unwrap();
+    let (count, viols, n_out) = h.join().unwrap();
+    println!("{}", json!({"count": count, "violations": viols, "outcomes": n_out}));
+    0
+}
+
 pub fn child_sweep(first: &str, len: usize, progress_path: &str) -> i32 {
+    if first.starts_with('F') {
+        return child_frame_sweep(first, len, progress_path);
+    }
     world::install_panic_hook();
     let head = rc::unhex(first);
     let mut count = 0u64;
@@ -775,6 +859,12 @@ pub fn run(tier: Tier, replay: Option<String>) -> i32 {
             parts.push(rc::hex(&[a, b]));
         }
     }
+    // (a') frame-level sweep: every sequence of up to 5 (thorough 6) frames of a 9-frame alphabet, partitioned by the first frame
+    let n_byte_parts = parts.len();
+    let frame_len = tier.pick(5usize, 6usize);
+    for i in 0..frame_alphabet().len() {
+        parts.push(format!("F{}", i));
+    }
     let next = AtomicUsize::new(0);
     let sweep_results: Mutex<Vec<(usize, ChildOut)>> = Mutex::new(Vec::new());
     std::thread::scope(|sc| {
@@ -789,7 +879,8 @@ pub fn run(tier: Tier, replay: Option<String>) -> i32 {
                     break;
                 }
                 let pp = tmp.join(format!("progress-{}", t));
-                let out = run_child(&["c03-sweep", &parts[i], &sweep_len.to_string(), pp.to_str().unwrap()]);
+                let l = if i >= n_byte_parts { frame_len } else { sweep_len };
+                let out = run_child(&["c03-sweep", &parts[i], &l.to_string(), pp.to_str().unwrap()]);
                 if !out.status.success() {
                     // the progress file names the input being fed when the child died
                     let last = std::fs::read_to_string(&pp).unwrap_or_default();
@@ -914,7 +1005,7 @@ pub fn run(tier: Tier, replay: Option<String>) -> i32 {
     ck.cov("max_heap_growth_per_byte_fed", (max_peak_ratio * 100.0).round() / 100.0);
     ck.cov("exhaustive", true);
     ck.cov("traces_validated_against_impl", evals);
-    ck.cov("rule", format!("(a) every byte string over {{00..08,FF,'R',0B}} of length <= {} after a valid greeting, fed whole and byte-at-a-time to the real framed reader (child processes, 2 MiB stacks); (b) {} structured hostile inputs (inconsistent command lengths truncated at every byte, 64-bit frame lengths incl. sign bit, reserved flags, MORE-chains up to 100000 frames), each in its own child process with a counting allocator: no panic, no abnormal exit, peak heap growth <= 1 MiB + 64 x bytes fed; (c) one representative per distinct codec-level outcome plus all chains/hostile lengths, fed at each of 3 handshake stages to each of 9 socket types through real attach/recv/send with a healthy second peer whose traffic must still get through. distinct_nontrivial = distinct codec-level outcome signatures (item kinds / error text / panic site).", sweep_len, fam.len()));
+    ck.cov("rule", format!("(a) every byte string over {{00..08,FF,'R',0B}} of length <= {} after a valid greeting, fed whole and byte-at-a-time to the real framed reader (child processes, 2 MiB stacks); (a') every sequence of up to 5 (thorough 6) FRAMES of a 9-frame alphabet (message frames with and without MORE, empty ones, long form, READY / ERROR commands, a full READY, a command with MORE) - sequences no well-behaved peer sends, such as a command in the middle of a multipart message; (b) {} structured hostile inputs (inconsistent command lengths truncated at every byte, 64-bit frame lengths incl. sign bit, reserved flags, MORE-chains up to 100000 frames), each in its own child process with a counting allocator: no panic, no abnormal exit, peak heap growth <= 1 MiB + 64 x bytes fed; (c) one representative per distinct codec-level outcome plus all chains/hostile lengths, fed at each of 3 handshake stages to each of 9 socket types through real attach/recv/send with a healthy second peer whose traffic must still get through. distinct_nontrivial = distinct codec-level outcome signatures (item kinds / error text / panic site).", sweep_len, fam.len()));
     for (sig, (d, s)) in classes.iter().take(4) {
         ck.sample(json!({"input": d, "spec": s.chars().take(80).collect::<String>(), "codec_outcome": sig}));
     }
